@@ -137,12 +137,14 @@ inline Outcome check_input(const std::string &in) {
         int pres = pa % 3, ambient = (pa >= 3) || !has_digit ? ERANGE : 0;
         if (pa >= 3 && !has_digit) continue;
         // 0: NUL-terminated (exact strlen+1 block), 1: length-delimited, exact-size block without terminator,
-        // 2: sx_parse() from a start index: the input sits behind three octets "((x" that the reader has no business looking at
+        // 2: sx_parse() from a start index: the input sits behind three octets (brackets, digits, a hex literal or a symbol) that the reader has no business looking at
         if (pres == 0 && memchr(in.data(), 0, in.size())) continue;
+        static const char *PREFIX[4] = {"((x", "(12", "#x9", "a) "};   // what stands in front of the start index varies: brackets, digits, a hex literal, a symbol
+        const char *prefix = PREFIX[vp::fnv((const uint8_t *)in.data(), in.size(), 7) % 4];
         const size_t pre = pres == 2 ? 3 : 0;
         size_t blk = pres == 0 ? in.size() + 1 : (pre + in.size() ? pre + in.size() : 1);
         char *mem = (char *)malloc(blk);
-        if (pre) memcpy(mem, "((x", pre);
+        if (pre) memcpy(mem, prefix, pre);
         memcpy(mem + pre, in.data(), in.size());
         if (pres == 0) mem[in.size()] = 0;
         long live0 = ledger().live;
